@@ -307,7 +307,10 @@ theorem in_empty_never_matches (rx : RegexOracle) (ctx : Ctx) (c : Clause)
     Option.isSome_none]
   split
   · rfl
-  · split <;> rfl
+  · split
+    · rfl
+    · rfl
+    · split <;> rfl
 
 theorem dead_rule_example (seg : Spec.SegRec) (env : Env) (r : FlagRule) (c : Clause)
     (hr : r.clauses = [c])
